@@ -1,6 +1,6 @@
 """C06 - totals conserve money: each transaction is counted once, in exactly one bucket.
 
-Exhaustive: every multiset of <= K classified transactions over a 20-element alphabet; for each
+Exhaustive: every multiset of <= K classified transactions over a 23-element alphabet; for each
 multiset every permutation and every assignment of the transactions to two data sources; the real
 analyze_transactions() is run on each arrangement and compared with the reference bucket sums and
 with every other arrangement of the same multiset.
@@ -13,9 +13,9 @@ from mc.ref import money
 
 PROPERTY = "C06"
 LEVEL = "exploration"
-RULE = ("cases = all multisets of size 1..K (K=3 quick, 4 thorough) over a 20-transaction alphabet "
+RULE = ("cases = all multisets of size 1..K (K=3 quick, 4 thorough) over a 23-transaction alphabet "
         "(5 amounts incl. 0 and both signs x 10 tag lists covering every special-tag precedence class and letter case, "
-        "2 merchants, 2 categories, 2 months); each case runs analyze_transactions on every permutation x every "
+        "4 merchants (two with empty / blank raw descriptions), 2 categories, 2 months); each case runs analyze_transactions on every permutation x every "
         "2-source labelling. non-trivial = multiset with >=2 transactions that fall into >=2 different buckets or "
         "carry >=2 special tags on one transaction; multisets are distinct by construction")
 ASSUMPTIONS = ["amounts are multiples of 0.25 so float sums are exact and order-independent",
@@ -53,18 +53,21 @@ def _alphabet():
     out[7] = (0.0, 3, 1, 0, 1)       # transfer zero
     out[16] = (0.25, 8, 0, 0, 0)     # ordinary tag, quarter
     out[1] = (-0.25, 0, 1, 1, 1)     # missing tags key, small credit
+    # transactions whose raw description is empty / blank (a description template can produce " "): counted like any other
+    out += [(100.0, 1, 2, 0, 1), (-20.5, 8, 3, 1, 0), (0.25, 2, 3, 0, 1)]
     return out
 
 
 ALPHABET = _alphabet()
-MERCHANTS = ["M1", "M2"]
+MERCHANTS = ["M1", "M2", "M3", "M4"]
+RAW_BLANK = {2: "", 3: "  "}
 CATS = [("Food", "Grocery"), ("Bills", "Power")]
 
 
 def mk_txn(code, source):
     amt, ti, mi, ci, di = code
     t = {"amount": amt, "merchant": MERCHANTS[mi], "category": CATS[ci][0], "subcategory": CATS[ci][1],
-         "date": D1 if di == 0 else D2, "description": MERCHANTS[mi], "raw_description": f"RAW {MERCHANTS[mi]} {amt}",
+         "date": D1 if di == 0 else D2, "description": MERCHANTS[mi], "raw_description": RAW_BLANK.get(mi, f"RAW {MERCHANTS[mi]} {amt}"),
          "source": source}
     if _TAGSETS[ti] is not None:
         t["tags"] = list(_TAGSETS[ti])
